@@ -243,7 +243,6 @@ var c01Classes = []c01ClassDef{
 	{"root-typename", func(o opFacts, d dataFacts, sh bool) bool { return o.RootTypename }, []string{"error/internal-service-url"}},
 	{"aliased-helper", func(o opFacts, d dataFacts, sh bool) bool { return o.AliasedHelper }, []string{"error/missing-id", "invalid-subrequest/field-conflict", "wrong-data"}},
 	{"duplicate-response-key", func(o opFacts, d dataFacts, sh bool) bool { return o.DuplicateKey }, []string{"wrong-data", "invalid-subrequest/field-conflict"}},
-	{"multi-spread", func(o opFacts, d dataFacts, sh bool) bool { return o.MultiSpread }, []string{"wrong-data"}},
 	{"plain-node-root", func(o opFacts, d dataFacts, sh bool) bool { return o.PlainNodeRoot }, []string{"wrong-data"}},
 	{"node-root-fragment", func(o opFacts, d dataFacts, sh bool) bool { return o.NodeRoot }, []string{"invalid-subrequest/unknown-field", "error/internal-service-url", "wrong-data", "error/missing-id"}},
 	{"abstract-type-selection", func(o opFacts, d dataFacts, sh bool) bool { return o.Abstract }, []string{"invalid-subrequest/unknown-field", "wrong-data", "error/missing-id"}},
